@@ -9,7 +9,7 @@ Driver for C01.  An abstract case is one protocol line
   mode   = parse | multi | flat | read | readmulti | readflat | readflatgz
   (also  c01 raw mode text : raw text given to the parser as it is, outside the domain, correspondence only)
   record = name len(digits or empty) mol(text or empty) topo(0 circular/1 linear/2 none) division(text or empty) date(or empty)
-           pads locusTrail originTrail blockLen perLine extraCuts omit(5 x 0/1: DEF ACC VER KEY SRC)
+           pads locusTrail originTrail blockLen perLine extraCuts omit(5 or 6 x 0/1: DEF ACC VER KEY SRC, and ORGANISM alone under a written SOURCE)
            definition bs accession bs version bs keywords bs source bs organism bs
            nrefs { number(own number, empty = the position) range bs trailGap(0/1) authors bs title bs journal bs pubmed bs remark bs }*
            nextras { key text bs }*
@@ -86,7 +86,7 @@ def pRec : P (GbRec × RecLayout) := do
           { pads, locusTrail, definition := db, accession := ab, version := vb, keywords := kb, source := sb, organism := ob
             refs := refs.map (·.2), extras := exs.map (·.2), feats := fs.map (·.2)
             originTrail, blockLen, perLine, extraCuts
-            omitDefinition := om 0, omitAccession := om 1, omitVersion := om 2, omitKeywords := om 3, omitSource := om 4 })
+            omitDefinition := om 0, omitAccession := om 1, omitVersion := om 2, omitKeywords := om 3, omitSource := om 4, omitOrganism := om 5 })
 
 structure Case where
   mode : String
@@ -218,7 +218,11 @@ def judge (f out : List String) : Verdict :=
     -- the known finding is tagged only when the reply is exactly what it predicts: every record as the record states it,
     -- except that of a repeated qualifier key the last value is kept (`toSequenceM`); anything else is a plain FAIL
     let lastWins := serOutcome (.ok (c.recs.map toSequenceM))
-    let kf := if c.recs.any repeatedQualKey && outN == lastWins then " kf:C01-repeated-qualifier-key" else ""
+    -- likewise C01-source-without-organism: some record's SOURCE block is written without its ORGANISM line and the reply
+    -- is exactly the prediction `toSequenceOrg` (the text of the next keyword block as the organism, all else as stated)
+    let orgPred := serOutcome (.ok (pairs.map fun p => toSequenceOrg p.1 p.2))
+    let kf := if pairs.any (fun p => orgOmitted p.1 p.2) && outN == orgPred then " kf:C01-source-without-organism"
+      else if c.recs.any repeatedQualKey && outN == lastWins then " kf:C01-repeated-qualifier-key" else ""
     let triv := if nfeat == 0 && c.recs.all (fun r => r.refs.isEmpty) then "triv:" else ""
     let cls := triv ++ c.mode ++ "/r" ++ toString c.recs.length
       ++ (if c.lay.finalNewline then "/nl" else "/nonl")
